@@ -43,6 +43,19 @@ PROPS = {
                        "equivalence and nothing else changes it, root_ is an idempotent representative inside the class and the identity on "
                        "unallocated ids; the real unification.rs is interpreted from an arbitrary forest (and decided again by Kani in the thorough tier)",
     },
+    "C02": {
+        "classes": r"hom\.|^effects\.define_\w+: (returns an existing value|allocates nothing when)|^(?!step\.early).*" + STRUCT,
+        "lemmas": lambda n: n in ("new", "prologue", "step") or n.startswith("api.") or n.startswith("effects.define_"),
+        "witness": "forced",
+        "explanation": "bounded inductive verification with a ghost model: for an arbitrary structure N over the universe bound that is a model of "
+                       "the reference rules (every stage, every assignment; single-valued functions) and an arbitrary map h from element ids to N, "
+                       "the invariant `h is a homomorphism from the current state into N` (equal elements have equal images, every row of every table "
+                       "is mapped into N, every pending definition is defined in N) is preserved by every public mutator -- provided N satisfies the "
+                       "asserted fact -- by close_until's prologue and by one arbitrary loop iteration; elements allocated on the way get an image by a "
+                       "finite disjunction and are shown to be values of function rows; define_ returns the existing value of a defined term and "
+                       "allocates nothing then. Hence every tuple and equality of a closed model holds in every model (within the bound) of the rules "
+                       "and the assertions. The structural invariants this induction rests on (C04) are re-checked as hypotheses",
+    },
     "C06": {
         "classes": r"^(step|prologue)\.(noalloc|progress|dirty-exact)",
         "lemmas": lambda n: n == "step" or n == "prologue",
@@ -177,6 +190,8 @@ def main():
         kind = cfg["witness"]
         if prop == "C07" and any(l.startswith("step.contract") for l in rest):
             kind = "contract"
+        if prop == "C02" and all(l.startswith("effects.") for l in rest):
+            kind = "effects"
         # a witness that only exhibits a listed known finding (F1: a `!`-conclusion dropped at an early return, visible as an
         # undefined term after the final close) is not a new violation: those items are excluded from the search
         excl = r"^closed\.def:" if (prop == "C07" and any(k["id"] == "F1" for k in kn)) else None
